@@ -127,7 +127,7 @@ theorem InvB_mCall {s s' : St} {inp : Bytes} {cap : Nat} {act : Action} (h : Inv
     · dsimp only; intro a; cases hq : s.seq <;> simp [hq] at a ⊢
     · dsimp only; intro a; cases hq : s.seq <;> simp [hq] at a ⊢
     · dsimp only; intro a; cases hq : s.seq <;> simp [hq] at a ⊢
-      exact hg.2 hq
+      exact hg.2.1 hq
   · cases hs
 
 theorem InvB_mHdr {P : Params} {s s' : St} (h : InvB s) (hs : mHdr P s = some s') : InvB s' := by
